@@ -47,6 +47,13 @@ theorem constants_eq_source :
 theorem withoutPlanKinds_eq_source :
     FastPath.stmtShow :: RwSplit.otherWithoutPlan = Gen.c22_withoutPlanKinds := by decide
 
+/-- The statement kinds the model names by number are the parser's. -/
+theorem stmtKinds_eq_source :
+    [("StmtDDL", RwSplit.stmtDDL), ("StmtLoad", RwSplit.stmtLoad)].all
+      (fun kv => Gen.c21StmtKinds.lookup kv.1 == some kv.2) = true ∧
+    ["StmtCallProc", "StmtPrepare", "StmtExecute", "StmtWith", "StmtComment"].map
+      (fun k => Gen.c21StmtKinds.lookup k) = RwSplit.roTextDecided.map some := by decide
+
 /-! ### the lexical vocabulary of the statements -/
 
 /-- White space and comments: what may follow the last token of a statement.
